@@ -30,6 +30,9 @@ BUNDLES: Dict[str, dict] = {
     # members of equal widths (a connection that pairs them wrongly is still width-correct), some below a sub-bundle
     "B8": {"sigs": [["u", 2, "sig"], ["v", 2, "sig"], ["w", 2, "sig"]], "subs": [], "roles": None},
     "B9": {"sigs": [["t", 1, "sig"]], "subs": [["d", "Diff", False]], "roles": None},
+    # other definitions of the SAME structure as B1 / B3 (two libraries each defining "the" bus): compatible for connection
+    "B1t": {"sigs": [["x", 1, "sig"], ["y", 2, "sig"]], "subs": [], "roles": None},
+    "B3t": {"sigs": [["z", 1, "sig"]], "subs": [["lo", "B1t", False], ["hi", "B1", False]], "roles": None},
 }
 
 
@@ -409,6 +412,26 @@ def structural_designs() -> Iterator[Tuple[str, dict]]:
                            insts=[_inst("c0", ["mod", "Cb"], c0), _inst("c1", ["mod", "Cb"], c1)] + tops_insts)
                 yield (f"bundle-{bname}-{'flip' if flipped else 'noflip'}-{form}",
                        {"bundles": B(), "modules": [ch, top], "top": "T"})
+
+    # a bundle port connected to an instance of ANOTHER definition of the same structure (flat, and with nested members)
+    for bport, binst in (("B1", "B1t"), ("B3", "B3t"), ("B3t", "B3")):
+        leaves = refsem.bundle_leaves({"bundles": BUNDLES}, bport)
+        cin = []
+        for k, (path, w) in enumerate(leaves):
+            leaf, port, others = leaf_for_width(w)
+            c = {port: ["bref", "bp", list(path)]}
+            for p, pw in others.items():
+                c[p] = S(f"k{pw}")
+            cin.append(_inst(f"e{k}", L(leaf), c, tag=10 + k))
+        ch = _mod("Cb", ports=[["k1", 1, "none"], ["k2", 2, "none"], ["k3", 3, "none"]], bports=[["bp", bport, False, None]], insts=cin)
+        kc = {"k1": S("k1"), "k2": S("k2"), "k3": S("k3")}
+        obs = []
+        for k, (path, w) in enumerate(leaves):
+            leaf, port, others = leaf_for_width(w)
+            obs.append(_inst(f"ob{k}", L(leaf), dict({port: ["bref", "bb", list(path)]}, **{p_: S(f"k{pw_}") for p_, pw_ in others.items()}), tag=40 + k))
+        top = _mod("T", sigs=[["k1", 1], ["k2", 2], ["k3", 3]], buns=[["bb", binst]],
+                   insts=[_inst("c0", ["mod", "Cb"], dict(kc, bp=["bun", "bb"]))] + obs)
+        yield (f"bundle-twin-types-{bport}-{binst}", {"bundles": B(), "modules": [ch, top], "top": "T"})
 
     # bundle instances made by copying / multiplying / flipping ANOTHER instance that is used too
     for bname in ("B1", "B2", "B3"):
